@@ -1,3 +1,4 @@
+from formulae.expr import Grouping
 from formulae.terms import (
     Variable,
     Call,
@@ -29,6 +30,12 @@ class Resolver:
     def visitBinaryExpr(self, expr):  # pylint: disable=too-many-return-statements
         otype = expr.operator.kind
         if otype == "TILDE":
+            top = self.expr
+            while isinstance(top, Grouping):  # redundant parentheses around the whole formula
+                top = top.expression
+            if expr is not top:
+                # 'y + (z ~ x)': the response 'z' would be dropped when the models are merged
+                raise ResolverError("'~' must be the outermost operator of the formula")
             return Response(expr.left.accept(self)) + expr.right.accept(self)
         if otype == "PLUS":
             return expr.left.accept(self) + expr.right.accept(self)
